@@ -3,3 +3,6 @@ import RarenaVerif.Model.Core
 import RarenaVerif.Model.Layout
 import RarenaVerif.Model.Handle
 import RarenaVerif.Model.Bytes
+import RarenaVerif.Model.Spec
+import RarenaVerif.Model.Inv
+import RarenaVerif.Proofs.Mem
